@@ -691,11 +691,12 @@ func (cf *syconfig) Run(path []int) (string, bool) {
 }
 
 func dbConfigs() []config {
-	cfgs := []config{newDConfig(), newSyConfig("db-sync-acks1-1replica", 1, 1, 2, c.Thorough())}
+	k := 2
 	if c.Thorough() {
-		cfgs = append(cfgs, newSyConfig("db-sync-acks1-2replicas", 1, 2, 2, false), newSyConfig("db-sync-acks2-2replicas", 2, 2, 2, false))
-	} else {
-		cfgs = append(cfgs, newSyConfig("db-sync-acks2-2replicas", 2, 2, 1, false))
+		k = 3
 	}
-	return cfgs
+	return []config{newDConfig(),
+		newSyConfig("db-sync-acks1-1replica", 1, 1, k, c.Thorough()),
+		newSyConfig("db-sync-acks1-2replicas", 1, 2, 2, false),
+		newSyConfig("db-sync-acks2-2replicas", 2, 2, 2, c.Thorough())}
 }
